@@ -14,6 +14,8 @@ def run(ctx, rep):
     operators.rule_host_operator_pitfalls(ctx, rep, "C06-R7")
     operators.rule_host_truthiness(ctx, rep, "C06-R8")
     operators.rule_int_results_normalised(ctx, rep, "C06-R5")
+    operators.rule_nan_takes_no_arm(ctx, rep, "C06-R11")
+    operators.rule_zero_sign_survives_int(ctx, rep, "C06-R12")
     rep.undecided += [
         "the operator/conversion value table (about 80 x 80 x 45 cells against a reference): a runtime differential, outside static analysis",
     ]
